@@ -200,6 +200,9 @@ def adaptive_personalized_federated_learning(
     )
 
     client_diagnostics = {}
+    # Updated copy of the client states: the input server_state (and the dict it
+    # holds) belongs to the caller and must not be modified.
+    client_states = dict(server_state.client_states)
     # Running weighted mean of client updates. We do this iteratively to avoid
     # loading all the client outputs into memory since they can be prohibitively
     # large depending on the model parameters size.
@@ -207,7 +210,7 @@ def adaptive_personalized_federated_learning(
     num_examples_sum = 0.
     for client_id, client_output in train_for_each_client(server_state.params, batch_clients):
       delta_params = client_output['delta_params']
-      server_state.client_states[client_id] = client_output['state']
+      client_states[client_id] = client_output['state']
       num_examples = client_num_examples[client_id]
       delta_params_sum = tree_util.tree_add(delta_params_sum, tree_util.tree_weight(delta_params, num_examples))
       num_examples_sum += num_examples
@@ -217,17 +220,17 @@ def adaptive_personalized_federated_learning(
           'delta_l2_norm': tree_util.tree_l2_norm(delta_params)
       }
     mean_delta_params = tree_util.tree_inverse_weight(delta_params_sum,num_examples_sum)
-    server_state = server_update(server_state, mean_delta_params)
+    server_state = server_update(server_state, mean_delta_params, client_states)
 
     return server_state, client_diagnostics
 
-  def server_update(server_state, mean_delta_params):
+  def server_update(server_state, mean_delta_params, client_states):
     opt_state, params = server_optimizer.apply(
       mean_delta_params,
       server_state.opt_state,
       server_state.params)
 
-    return ServerState(params, opt_state, server_state.client_states)
+    return ServerState(params, opt_state, client_states)
 
   return federated_algorithm.FederatedAlgorithm(init, apply)
 
